@@ -135,7 +135,8 @@ class C11(Check):
             out.discarded = str(d)
             return out
         snap = drive(prog, items, mode, prelude=case.get('prelude'))
-        prelude_tags(case, out)
+        if case.get('prelude') and not (mode == 'plain' and 'tee_map' in names):
+            prelude_tags(dict(case, prelude=progs.usable_prelude(prog, case['prelude'])), out)
         if snap.err is not None:
             return out.fail('stream-error-where-the-model-expects-items', error=repr(snap.err), emitted=len(snap.out))
         if not snap.done:
